@@ -10,7 +10,7 @@
 //   - statements: if / else (no init), return, `=` and `:=` on local variables (no shadowing), var declarations,
 //     blocks, type switches `switch [f :=] any(x).(type)` whose cases name one predeclared numeric type each;
 //   - expressions: constants (folded by go/types, exact), local variables, comparisons, && || !, unary -,
-//     + - * / on same-typed operands, conversions T(e) between numeric types (not to float32 from a possibly wider
+//   - - * / on same-typed operands, conversions T(e) between numeric types (not to float32 from a possibly wider
 //     float), calls to (generic) functions of the same package.
 //
 // The file is written only if its content changed, so `make` stays incremental.
@@ -360,10 +360,11 @@ func (t *translator) expr(e ast.Expr, sc scope) (string, error) {
 			if err != nil {
 				return "", err
 			}
+			// the right operand is a thunk: evaluated only when the left one does not decide (also inside Coq's VM)
 			if x.Op == token.LAND {
-				return "(go_and " + a + " " + b + ")", nil
+				return "(go_and " + a + " (fun _ => " + b + "))", nil
 			}
-			return "(go_or " + a + " " + b + ")", nil
+			return "(go_or " + a + " (fun _ => " + b + "))", nil
 		}
 		if op, ok := cmpOps[x.Op]; ok {
 			xt, yt := t.info.TypeOf(x.X), t.info.TypeOf(x.Y)
@@ -532,6 +533,12 @@ func paren(s string) string {
 	return s[:len(s)-len(body)] + "(" + body + ")"
 }
 
+// thunk wraps a (possibly multi-line, indented) term as (fun _ => term), keeping its indentation.
+func thunk(s string) string {
+	body := strings.TrimLeft(s, " ")
+	return s[:len(s)-len(body)] + "(fun _ => " + body + ")"
+}
+
 func ind(n int) string { return strings.Repeat("  ", n) }
 
 func concat(a []ast.Stmt, b []ast.Stmt) []ast.Stmt {
@@ -628,7 +635,8 @@ func (t *translator) stmts(list []ast.Stmt, sc scope, d int) (string, error) {
 		if err != nil {
 			return "", err
 		}
-		return fmt.Sprintf("%s(go_if %s\n%s\n%s)", ind(d), c, paren(th), paren(el)), nil
+		// both branches are thunks: only the taken one is evaluated (also by Coq's call-by-value VM)
+		return fmt.Sprintf("%s(go_if %s\n%s\n%s)", ind(d), c, thunk(th), thunk(el)), nil
 	case *ast.AssignStmt:
 		if len(s.Lhs) != 1 || len(s.Rhs) != 1 {
 			return "", t.errf(s, "multiple assignment")
